@@ -136,7 +136,27 @@ def run(ctx):
             if n_mm <= 3:
                 rep.violation('correspondence', {'property': 'C09', 'kind': 'model-vs-implementation', 'seed': ctx.seed, 'program': c['text'],
                                                  'implementation': a, 'model': b, 'line': c['line']})
-    cov = {'evaluations': len(cases) * len(variants) + len(kcases), 'distinct_nontrivial': len(set(t for _, t, _ in cases)) + len(distinct),
+    # containers that operators tried to make cyclic (through arrays, hash map values and hash map keys) handed to the
+    # operators that walk a whole value — printing, comparing, copying, hashing as a key: every one must complete
+    import heapgen
+    cg = heapgen.CycleGen(ctx.rng.fork('walk'))
+    wcases = []
+    for i in range(300 if quick else 4000):
+        text, _, _ = cg.history()
+        text += ('; tr = [str g1, str g2, str gx, count (str ga), g1 isEqualTo g2, gx isEqualTo ga, (+g1) isEqualTo g1, count (+gx), '
+                 'count (createHashMapFromArray [[g1, 1], [g2, 2]]), (createHashMapFromArray [[[gx], 1]]) get [gx], g1 find g2, [g1, gx] isEqualTo [g2, ga]]')
+        wcases.append({'id': 'w%d' % i, 'text': text, 'line': 'run w%d %s %s %s' % (i, hexf(text), hexf('tr'), hexf('20000'))})
+    wimpl, _ = ctx.run_pair([c['line'] for c in wcases], timeout_ms=8000, model=False)
+    n_walk_bad = 0
+    for c in wcases:
+        a = wimpl.get(c['id'])
+        if a is None or a.startswith('crash') or a.startswith('timeout') or a.startswith('cpp-exception') or a.startswith('exit:'):
+            n_bad += 1
+            n_walk_bad += 1
+            if n_walk_bad <= 3:
+                rep.violation('oracle', {'property': 'C09', 'kind': 'operator call did not complete (value that operators tried to make cyclic)', 'seed': ctx.seed,
+                                         'program': c['text'], 'difference': {'expected': 'a value or an SQF diagnostic', 'implementation': a}, 'line': c['line']})
+    cov = {'evaluations': len(cases) * len(variants) + len(kcases) + len(wcases), 'container_walk_programs': len(wcases), 'container_walk_failures': n_walk_bad, 'distinct_nontrivial': len(set(t for _, t, _ in cases)) + len(distinct),
            'rule': 'every registered signature (name, left type, right type) of the registry dumped from the linked runtime on this run, with boundary values of its argument types: numbers (0, -0, halves, 2^24, 2^31 and 2^32 and their neighbours, 1e10, 9.2e18, 1e38, infinities, NaN, denormals), strings (empty, %-placeholders with huge numbers, long, non-ASCII, names of files of 0-3 bytes), arrays (empty, nested, wrong element types, [200, 2e9]-style ranges, 100000 nils, 40 sub-arrays, shapes for sort), code (empty, nil, throwing, wrong result type), null and live objects and groups, configs, sides, namespaces, hash maps, scripts, controls; every combination where both types are specific and the product is small, sampled otherwise; plus uses whose code argument changes the array or map being walked; each call in a fresh VM in a forked child under a 2 s VM limit, a 6 s watchdog and a 4 GB address space limit; a call must end with a value or an SQF diagnostic — no signal, no escaped C++ exception, no time-out, no growth of the resident set beyond 400 MB; the thorough tier repeats everything in an AddressSanitizer/UBSan build (with float-cast-overflow); for select, resize, deleteAt, deleteRange, set, sort, format and iteration over a changing array, programs on boundary values are also compared value for value (result, array behind the call, diagnostics) with the Lean model',
            'samples': samples, 'operator_failures': n_bad, 'model_mismatches': n_mm, 'signatures': len(g.sigs), 'builds': per_variant,
            'generator_counts': dict(g.stats, **{'kern:' + k: v for k, v in kg.stats.items()})}
